@@ -23,10 +23,13 @@ pub struct Case {
     /// attributes forced to small values (bit i set: attribute i is 0 or 1) - used by C19 only
     #[serde(default)]
     pub small_mask: u8,
+    /// explicit hidden positions (overrides hidden_mask; for attribute counts above 8)
+    #[serde(default)]
+    pub hidden_list: Vec<usize>,
 }
 
 pub fn strat(nmax: usize) -> impl Strategy<Value = Case> {
-    (any::<u16>(), 1usize..=nmax, 1u8..=31, 0u8..3, any::<u32>()).prop_map(|(key, n, hm, kind, seed)| Case { key, n, hidden_mask: (hm as usize % ((1 << n) - 1)) as u8 + 1, kind, seed, small_mask: 0 })
+    (any::<u16>(), 1usize..=nmax, 1u8..=31, 0u8..3, any::<u32>()).prop_map(|(key, n, hm, kind, seed)| Case { key, n, hidden_mask: (hm as usize % ((1 << n) - 1)) as u8 + 1, kind, seed, small_mask: 0, hidden_list: vec![] })
 }
 
 /// public base pair (g, h) modulo n, with a label
@@ -71,13 +74,13 @@ where
     let key = &sh.keys[pick(c.key, sh.keys.len())];
     let pk = &key.pk;
     let n = c.n;
-    let hidden: Vec<usize> = (0..n).filter(|i| c.hidden_mask >> i & 1 == 1).collect();
+    let hidden: Vec<usize> = if c.hidden_list.is_empty() { (0..n.min(8)).filter(|i| c.hidden_mask >> i & 1 == 1).collect() } else { c.hidden_list.clone() };
     let mut st = (c.seed as u64) << 9 | 1;
     // high-entropy attributes only
-    let vals: Vec<Integer> = (0..n).map(|i| if c.small_mask >> i & 1 == 1 { Integer::from((i + (c.seed as usize)) % 2) } else { attr_random(&mut st) }).collect();
+    let vals: Vec<Integer> = (0..n).map(|i| if i < 8 && c.small_mask >> i & 1 == 1 { Integer::from((i + (c.seed as usize)) % 2) } else { attr_random(&mut st) }).collect();
     let hidden_vals: Vec<(usize, Integer)> = hidden.iter().map(|&i| (i, vals[i].clone())).collect();
     let kind = if c.kind % 3 == 1 && sh.tp.is_none() { 0 } else { c.kind % 3 };
-    if kind < 2 {
+    if kind < 2 && !hidden.is_empty() {
         let bases = Bases::generate(pk, n);
         let msgs: Vec<CL03Message> = vals.iter().cloned().map(CL03Message::new).collect();
         let com = Commitment::<CL03<CS>>::commit_with_pk(&msgs, pk, &bases, Some(&hidden));
@@ -122,8 +125,10 @@ where
         }
         let sj = serde_json::to_value(&h.sig).unwrap();
         let (e, s, v) = (int_of(&sj["CL03"]["e"]).unwrap(), int_of(&sj["CL03"]["s"]).unwrap(), int_of(&sj["CL03"]["v"]).unwrap());
-        let mut pairs: Vec<BasePair> = (0..n).map(|i| BasePair { g: h.cpk.g_bases[i].clone(), h: h.cpk.h.clone(), n: h.cpk.N.clone(), label: format!("(g_{}, h)", i) }).collect();
-        pairs.extend((0..n).map(|i| BasePair { g: h.bases.0[i].clone(), h: pk.b.clone(), n: pk.N.clone(), label: format!("(a_{}, b)", i) }));
+        // with many attributes only the base pairs of the hidden positions and of the two ends are tried
+        let which: Vec<usize> = if n <= 8 { (0..n).collect() } else { let mut w = hidden.clone(); w.extend([0, n - 1]); w.sort(); w.dedup(); w };
+        let mut pairs: Vec<BasePair> = which.iter().map(|&i| BasePair { g: h.cpk.g_bases[i].clone(), h: h.cpk.h.clone(), n: h.cpk.N.clone(), label: format!("(g_{}, h)", i) }).collect();
+        pairs.extend(which.iter().map(|&i| BasePair { g: h.bases.0[i].clone(), h: pk.b.clone(), n: pk.N.clone(), label: format!("(a_{}, b)", i) }));
         let mut secrets: Vec<(String, Integer)> = hidden_vals.iter().map(|(i, v)| (format!("hidden attribute m_{}", i), v.clone())).collect();
         secrets.push(("signature exponent e".into(), e));
         secrets.push(("signature component s".into(), s));
@@ -415,15 +420,25 @@ pub fn fixed_cases(ctx: &Ctx, nmax: usize) -> Vec<Case> {
                 if kind == 1 && k % 2 == 0 {
                     continue;
                 }
-                out.push(Case { key: (k * 7919) as u16, n, hidden_mask: mask, kind, seed: (ctx.seed as u32).wrapping_add(k), small_mask: 0 });
+                out.push(Case { key: (k * 7919) as u16, n, hidden_mask: mask, kind, seed: (ctx.seed as u32).wrapping_add(k), small_mask: 0, hidden_list: vec![] });
             }
         }
+    }
+    // full disclosure (nothing hidden): e, v and the commitment randomness must still stay hidden
+    for n in 1..=3usize {
+        k += 1;
+        out.push(Case { key: (k * 7919) as u16, n, hidden_mask: 0, kind: 2, seed: (ctx.seed as u32).wrapping_add(k), small_mask: 0, hidden_list: vec![] });
+    }
+    // many attributes, hidden positions beyond 32 and 64
+    for (n, hl) in [(34usize, vec![33usize]), (66, vec![64]), (66, vec![2, 65]), (70, vec![0, 31, 32, 63, 64, 69])] {
+        k += 1;
+        out.push(Case { key: (k * 7919) as u16, n, hidden_mask: 0, kind: 2, seed: (ctx.seed as u32).wrapping_add(k), small_mask: 0, hidden_list: hl });
     }
     // larger attribute counts: first / last / alternating positions hidden
     for n in [6usize, 8] {
         for (j, mask) in [1u8, 1 << (n - 1), 0b10100101 & (((1u16 << n) - 1) as u8)].into_iter().enumerate() {
             k += 1;
-            out.push(Case { key: (k * 7919) as u16, n, hidden_mask: mask, kind: [2u8, 0, 2][j], seed: (ctx.seed as u32).wrapping_add(k), small_mask: 0 });
+            out.push(Case { key: (k * 7919) as u16, n, hidden_mask: mask, kind: [2u8, 0, 2][j], seed: (ctx.seed as u32).wrapping_add(k), small_mask: 0, hidden_list: vec![] });
         }
     }
     out
